@@ -160,9 +160,9 @@ CHECKS = {
              "and access ids usable, no stream and no attach count left after teardown, ASan. 8 000 / 150 000.",
         note="SD ids are positional names (released by SDend; numerically re-issued ids are valid); the AN id is the "
              "file id; ids of other kinds are not passed to H-level/AN calls (known finding, three stored replays). "
-             "The shadow-run comparison of DESIGN 4 C13(3) is not built: adversarial calls are checked by their "
-             "failure value and by the identity table after them.",
-        tech=TECH % ("", "oracle = live-handle table + failure-value checks + sanitizer"),
+             "Shadow run: every plan is executed a second time without its adversarial calls (scaffolding kept); "
+             "the files of both runs must be byte-identical.",
+        tech=TECH % ("", "oracle = live-handle table + failure-value checks + shadow run without the adversarial calls (byte-identical files) + sanitizer"),
     ),
     "C14": dict(
         profile="readonly", cat="exploration", ref="DESIGN.md section 4 C14",
